@@ -12,7 +12,7 @@ import vlib, fam
 
 CLAUSES = ["LocalUnaffected", "OthersUnaffected", "NoHang", "QueueNotStuck", "AllocBounded", "DecoderNoPanic", "ReencodeStable"]
 FRAMES = ["pid", "name", "alias", "call", "callname", "exit", "any", "z"]
-VALUES = ["int", "string", "binary", "atom", "float", "pid", "ref", "alias", "slice", "slice2", "map", "mapany", "anys", "struct", "named", "error", "time", "array", "array2", "array3", "nested", "bool"]
+VALUES = ["int", "string", "binary", "atom", "float", "pid", "ref", "alias", "slice", "slice2", "map", "mapany", "anys", "struct", "named", "namedmap", "namedarr", "anynamed", "error", "time", "array", "array2", "array3", "nested", "bool"]
 TYPES = [0, 1, 100, 101, 102, 103, 104, 105, 106, 107, 121, 122, 123, 124, 129, 130, 181, 182, 183, 184, 185, 186, 199, 200, 201, 202, 203, 250, 255]
 
 FRAME_CFGS = [  # (name, Lens, Decl, MaxMsg, Fix, invariant expected to be violated or None)
